@@ -646,11 +646,21 @@ func (env *Env) evalQuant(e *Expr) *Val {
 	body := n.boolTerm(e.Args[0])
 	var pats [][]*Term
 	for _, p := range e.Trig {
+		if len(p) == 1 {
+			// a composite (struct / slice / interface) trigger expression: one alternative pattern per
+			// component, so that a read of any single field fires the quantifier
+			v := n.eval(p[0])
+			for _, t := range flatten(v) {
+				pats = append(pats, []*Term{cleanPattern(t)})
+			}
+			continue
+		}
 		var pt []*Term
 		for _, x := range p {
 			v := n.eval(x)
-			for _, t := range flatten(v) {
-				pt = append(pt, cleanPattern(t))
+			fl := flatten(v)
+			if len(fl) > 0 {
+				pt = append(pt, cleanPattern(fl[0]))
 			}
 		}
 		pats = append(pats, pt)
